@@ -19,17 +19,17 @@ import (
 
 // Value is the abstract decoded value (the fields used depend on the kind).
 type Value struct {
-	Sign  int     `json:"sign"`            // int
-	Mag   []int   `json:"mag"`             // int: big-endian magnitude, no leading zeros
-	Bv    bool    `json:"bv"`              // bool
-	Arcs  []int64 `json:"arcs"`            // oid
-	Bytes []int   `json:"bytes"`           // bits
-	Bl    int     `json:"bl"`              // bits: bit length
-	T     []int   `json:"t"`               // time: Y M D h m s offset-seconds
-	Class int     `json:"class"`           // hdr
-	Cons  bool    `json:"cons"`            // hdr
-	Tag   int64   `json:"tag"`             // hdr
-	Clen  int     `json:"clen"`            // hdr: content length
+	Sign  int     `json:"sign"`  // int
+	Mag   []int   `json:"mag"`   // int: big-endian magnitude, no leading zeros
+	Bv    bool    `json:"bv"`    // bool
+	Arcs  []int64 `json:"arcs"`  // oid
+	Bytes []int   `json:"bytes"` // bits
+	Bl    int     `json:"bl"`    // bits: bit length
+	T     []int   `json:"t"`     // time: Y M D h m s offset-seconds
+	Class int     `json:"class"` // hdr
+	Cons  bool    `json:"cons"`  // hdr
+	Tag   int64   `json:"tag"`   // hdr
+	Clen  int     `json:"clen"`  // hdr: content length
 }
 
 // Obs is what one real decoder did with one input.
